@@ -88,9 +88,13 @@ class ListTensor(Operator):
             and sub_equals(expressions, 0, 0)
         ):
             indices = [sub(e, 0, 1).indices() for e in expressions]
+            # Each component tensor must bind exactly the free indices of
+            # v[k, ...], in the same order (no transposition, no partial binding)
             if all(
-                i[0] == k and all(isinstance(subindex, Index) for subindex in i[1:])
-                for k, i in enumerate(indices)
+                i[0] == k
+                and all(isinstance(subindex, Index) for subindex in i[1:])
+                and tuple(i[1:]) == tuple(sub(e, 1).indices())
+                for k, (e, i) in enumerate(zip(expressions, indices))
             ):
                 return sub(e0, 0, 0)
 
